@@ -567,8 +567,38 @@ var mutating = map[string]bool{
 	"io.Copy": true, "io.CopyN": true, "io.CopyBuffer": true,
 }
 
+// readOnly lists intercepted calls that cannot change storage. Everything else that reaches the
+// storage layer is treated as mutating: a change to the code under test may start using a call the
+// explicit list above has never seen (renameat, mkdirat, ...), and a crash point must exist before it.
+var readOnly = map[string]bool{
+	"os.Stat": true, "os.Lstat": true, "os.Open": true, "os.ReadFile": true, "os.ReadDir": true, "os.Readlink": true, "os.Getwd": true,
+	"os.Chdir": true, "os.DirFS": true, "os.Getpid": true, "os.Hostname": true, "os.IsNotExist": true, "os.IsExist": true, "os.SameFile": true,
+	"(*os.File).Read": true, "(*os.File).ReadAt": true, "(*os.File).ReadDir": true, "(*os.File).Readdir": true, "(*os.File).Readdirnames": true,
+	"(*os.File).Stat": true, "(*os.File).Seek": true, "(*os.File).Name": true, "(*os.File).Fd": true, "(*os.File).SyscallConn": true,
+	"(fs.DirEntry).Info": true, "fs.ReadDir": true, "fs.WalkDir": true, "fs.Stat": true, "fs.ReadFile": true, "filepath.Abs": true, "filepath.WalkDir": true, "filepath.Walk": true,
+	"io.ReadAll": true, "io.ReadFull": true, "io.ReadAtLeast": true,
+	"unix.Stat": true, "unix.Fstat": true, "unix.Lstat": true, "unix.Fstatat": true, "unix.Statfs": true, "unix.Fstatfs": true, "unix.Access": true, "unix.Faccessat": true,
+	"unix.Getxattr": true, "unix.Lgetxattr": true, "unix.Fgetxattr": true, "unix.Listxattr": true, "unix.Llistxattr": true, "unix.Flistxattr": true,
+	"unix.Readlink": true, "unix.Getdents": true, "unix.Getpid": true, "unix.Getuid": true, "unix.Getgid": true, "unix.Close": true, "unix.Read": true, "unix.Pread": true,
+	"syscall.Stat": true, "syscall.Fstat": true, "syscall.Lstat": true, "syscall.Getpid": true, "syscall.Getuid": true, "syscall.Getgid": true, "syscall.Close": true, "syscall.Read": true,
+	"xattr.Get": true, "xattr.LGet": true, "xattr.FGet": true, "xattr.List": true, "xattr.LList": true, "xattr.FList": true,
+}
+
 // IsMutating reports whether an intercepted call may change storage.
-func IsMutating(name string) bool { return mutating[name] }
+func IsMutating(name string) bool {
+	if mutating[name] {
+		return true
+	}
+	if readOnly[name] {
+		return false
+	}
+	for _, p := range []string{"os.", "(*os.File).", "unix.", "syscall.", "xattr.", "io.Copy"} {
+		if strings.HasPrefix(name, p) {
+			return true
+		}
+	}
+	return false
+}
 
 var errorType = reflect.TypeOf((*error)(nil)).Elem()
 
@@ -708,6 +738,15 @@ func (s *Sim) Call(name, site string, ft reflect.Type, args []reflect.Value, rea
 		}
 		var e error
 		return []reflect.Value{reflect.ValueOf(u), reflect.ValueOf(&e).Elem()}
+	case "os.Getpid", "syscall.Getpid", "unix.Getpid":
+		// names derived from the process id must not differ between the process that found a violation and
+		// the one that replays it
+		return []reflect.Value{reflect.ValueOf(4242)}
+	case "os.Getppid", "syscall.Getppid", "unix.Getppid":
+		return []reflect.Value{reflect.ValueOf(1)}
+	case "os.Hostname":
+		var e error
+		return []reflect.Value{reflect.ValueOf("simhost"), reflect.ValueOf(&e).Elem()}
 	case "os.Chdir", "os.DirFS", "filepath.Abs":
 		return real(args)
 	}
@@ -729,7 +768,7 @@ func (s *Sim) Call(name, site string, ft reflect.Type, args []reflect.Value, rea
 	}
 	s.afterResume(t)
 	t.FSSteps++
-	info := &StepInfo{Task: t, Name: name, Site: stableOf(site), Line: lineOf(site), Args: args, Mutate: mutating[name]}
+	info := &StepInfo{Task: t, Name: name, Site: stableOf(site), Line: lineOf(site), Args: args, Mutate: IsMutating(name)}
 	info.Paths = pathArgs(args)
 
 	// planned faults addressed to this step
